@@ -10,7 +10,16 @@ SEEDED = os.path.join(VERIF, 'seeded')
 def main():
     names = sys.argv[1:] or sorted(d for d in os.listdir(SEEDED) if os.path.isdir(os.path.join(SEEDED, d)) and d != 'void')
     resf = os.path.join(SEEDED, 'RESULTS.json')
-    results = json.load(open(resf)) if os.path.exists(resf) else {}
+    results = {}
+
+    def save(name):
+        # read-modify-write under a lock: several runs (coordinator, agents) may update the file concurrently
+        import fcntl
+        with open(resf + '.lock', 'w') as lk:
+            fcntl.flock(lk, fcntl.LOCK_EX)
+            cur = json.load(open(resf)) if os.path.exists(resf) else {}
+            cur[name] = results[name]
+            json.dump(cur, open(resf, 'w'), indent=1, sort_keys=True)
     for name in names:
         d = os.path.join(SEEDED, name)
         meta = json.load(open(os.path.join(d, 'meta.json')))
@@ -66,7 +75,8 @@ def main():
             print(name, results[name]['status'], 'with-input' if with_input else '', {k: (v['exit'], len(v['violations']), v['wall_s']) for k, v in out.items()}, flush=True)
         finally:
             shutil.rmtree(tmp, ignore_errors=True)
-    json.dump(results, open(resf, 'w'), indent=1, sort_keys=True)
+            if name in results:
+                save(name)
 
 if __name__ == '__main__':
     main()
